@@ -41,17 +41,18 @@ type iterState struct {
 }
 
 type Obligation struct {
-	Name   string
-	Kind   string // requires ensures invariant-entry invariant-preserved no-panic assert cover canary lemma flow bounded
-	Func   string
-	Props  []string
-	Pos    int
-	Goal   Term // to be proved under the script prefix (we assert its negation)
-	Desc   string
-	Where  string
-	Cover  bool // expectation: negated goal must be SAT (reachability / canary)
-	Script *Script
-	Extra  string // extra decls emitted at query time
+	NoRetry bool // listed as a known finding: expected to stay undischarged, no long retry
+	Name    string
+	Kind    string // requires ensures invariant-entry invariant-preserved no-panic assert cover canary lemma flow bounded
+	Func    string
+	Props   []string
+	Pos     int
+	Goal    Term // to be proved under the script prefix (we assert its negation)
+	Desc    string
+	Where   string
+	Cover   bool // expectation: negated goal must be SAT (reachability / canary)
+	Script  *Script
+	Extra   string // extra decls emitted at query time
 
 	Result   SolverResult
 	Status   string // discharged | failed | unknown | known-finding
@@ -62,40 +63,42 @@ type Obligation struct {
 }
 
 type Exec struct {
-	w            *World
-	sc           *Script
-	obls         []*Obligation
-	structs      map[string]*structInfo
-	structBySort map[Sort]*structInfo
-	strLits      map[string]Term
-	strLitOrder  []string
-	typeTags     map[string]int
-	heapSorts    map[string]Sort
-	nframes      int
-	top          *ssa.Function
-	topC         *FuncContract
-	unsup        []string
-	depth        int
-	curFunc      string
-	modelTerms   []string
-	inlineStack  []*ssa.Function
-	assumptions  map[string]bool
-	ghostInit    map[string]Term
-	nIter        int
-	errSentinels []string
+	nSkolem         int
+	skolems         []skolemFn
+	w               *World
+	sc              *Script
+	obls            []*Obligation
+	structs         map[string]*structInfo
+	structBySort    map[Sort]*structInfo
+	strLits         map[string]Term
+	strLitOrder     []string
+	typeTags        map[string]int
+	heapSorts       map[string]Sort
+	nframes         int
+	top             *ssa.Function
+	topC            *FuncContract
+	unsup           []string
+	depth           int
+	curFunc         string
+	modelTerms      []string
+	inlineStack     []*ssa.Function
+	assumptions     map[string]bool
+	ghostInit       map[string]Term
+	nIter           int
+	errSentinels    []string
 	pendingAllHavoc bool
-	oblCount     map[string]int
-	curFrame     *Frame
-	topFrame     *Frame
-	modCache     map[*ssa.Function]*modSet
-	specs        map[string]*compiledSpec
-	dynModels    map[string]libModel
-	opaqueSpecs  map[string]bool
-	unfolded     map[string]bool
+	oblCount        map[string]int
+	curFrame        *Frame
+	topFrame        *Frame
+	modCache        map[*ssa.Function]*modSet
+	specs           map[string]*compiledSpec
+	dynModels       map[string]libModel
+	opaqueSpecs     map[string]bool
+	unfolded        map[string]bool
 	pairSrc, pairIg Term
-	rowResults   map[string]*rowResult
-	nCommitSites int
-	heapTypes    map[string]types.Type
+	rowResults      map[string]*rowResult
+	nCommitSites    int
+	heapTypes       map[string]types.Type
 }
 
 func NewExec(w *World) *Exec {
@@ -125,8 +128,8 @@ type Frame struct {
 	loops  map[*ssa.BasicBlock]*loopInfo
 	rets   []retPoint
 	// contract environment names
-	names map[string]*Val
-	pkg   *types.Package
+	names      map[string]*Val
+	pkg        *types.Package
 	debugNames map[string]ssa.Value
 	debugAll   map[string][]ssa.Value
 }
@@ -767,7 +770,7 @@ func (x *Exec) autoInvariants(fr *Frame, li *loopInfo, override map[*ssa.Phi]*Va
 
 func (x *Exec) loopEntry(fr *Frame, li *loopInfo, st *State) {
 	for i, c := range x.loopClauses(fr, li, "invariant") {
-		env := x.loopEnv(fr, li, st, nil)
+		env := x.loopEnv(fr, li, st, nil).proving()
 		parts := conjuncts(c.Expr)
 		for pi, pe := range parts {
 			t, err := x.evalBool(env, pe)
@@ -786,7 +789,7 @@ func (x *Exec) loopAssume(fr *Frame, li *loopInfo, st *State) {
 		x.assume(st, t)
 	}
 	for _, c := range x.loopClauses(fr, li, "invariant") {
-		env := x.loopEnv(fr, li, st, nil)
+		env := x.loopEnv(fr, li, st, nil).assuming()
 		t, err := x.evalBool(env, c.Expr)
 		if err != nil {
 			continue
@@ -813,7 +816,7 @@ func (x *Exec) loopBackEdge(fr *Frame, li *loopInfo, st *State, from *ssa.BasicB
 		}
 	}
 	for i, c := range x.loopClauses(fr, li, "invariant") {
-		env := x.loopEnv(fr, li, st, override)
+		env := x.loopEnv(fr, li, st, override).proving()
 		parts := conjuncts(c.Expr)
 		name := fmt.Sprintf("%s:loop#%d:inv%d:preserved", x.fname(fr), li.ordinal, i)
 		for pi, pe := range parts {
